@@ -1,92 +1,3 @@
-mod c01;
-mod c02;
-mod c03;
-mod c04;
-mod c05;
-mod c06;
-mod c07;
-mod c08;
-mod c09;
-mod c10;
-mod c11;
-mod c12;
-mod c13;
-mod c14;
-mod c15;
-mod c18;
-mod common;
-mod cursor_bfs;
-mod files;
-mod qcheck;
-mod query;
-mod scen;
-mod sorter_util;
-
-use vlib::report::{quiet_panics, read_replay, Tier};
-
-fn usage() -> ! {
-    eprintln!("usage: vchecks <C01..C18> <quick|thorough> | vchecks <ID> --replay <file>");
-    std::process::exit(2);
-}
-
 fn main() {
-    let args: Vec<String> = std::env::args().collect();
-    if args.len() == 2 && args[1] == "bench01" { c01::bench(); return; }
-    if args.len() < 3 {
-        usage();
-    }
-    let id = args[1].to_uppercase();
-    quiet_panics();
-    let code = if args[2] == "--replay" {
-        if args.len() < 4 {
-            usage();
-        }
-        let doc = read_replay(&args[3]);
-        let case = &doc["case"];
-        match id.as_str() {
-            "C01" => c01::replay(case),
-            "C02" => c02::replay(case),
-            "C04" => c04::replay(case),
-            "C05" => c05::replay(case),
-            "C09" => c09::replay(case),
-            "C15" => c15::replay(case),
-            "C10" => c10::replay(case),
-            "C18" => c18::replay(case),
-            "C13" => c13::replay(case),
-            "C14" => c14::replay(case),
-            "C06" => c06::replay(case),
-            "C07" => c07::replay(case),
-            "C08" => c08::replay(case),
-            "C11" => c11::replay(case),
-            "C12" => c12::replay(case),
-            "C03" => c03::replay(case),
-            _ => usage(),
-        }
-    } else {
-        let tier = match args[2].as_str() {
-            "quick" => Tier::Quick,
-            "thorough" => Tier::Thorough,
-            _ => usage(),
-        };
-        match id.as_str() {
-            "C01" => c01::run(tier),
-            "C02" => c02::run(tier),
-            "C04" => c04::run(tier),
-            "C05" => c05::run(tier),
-            "C09" => c09::run(tier),
-            "C15" => c15::run(tier),
-            "C10" => c10::run(tier),
-            "C18" => c18::run(tier),
-            "C13" => c13::run(tier),
-            "C14" => c14::run(tier),
-            "C06" => c06::run(tier),
-            "C07" => c07::run(tier),
-            "C08" => c08::run(tier),
-            "C11" => c11::run(tier),
-            "C12" => c12::run(tier),
-            "C03" => c03::run(tier),
-            _ => usage(),
-        }
-    };
-    std::process::exit(code);
+    vchecks::main_entry();
 }
